@@ -34,12 +34,15 @@ def run(ctx):
     ctx.rule('R19.4', 'the no-encoding fallback codec is Latin-1 as documented', floor=1)
     ctx.rule('R19.5', 'parse returns tuple(parsestream(sql, encoding))', floor=1)
     ctx.rule('R19.6', 'CLI: decode with args.encoding (newline-preserving), same encoding for the output file, validated options, one write of sqlparse.format(data, **opts), every dest is a known option', floor=6)
+    ctx.rule('R19.7', 'CLI/API option agreement: for every flag combination, validate(validate(parser defaults + flags)) and '
+             'validate(flags only) give build_filter_stack the same filter plan', floor=15)
     repo = ctx.repo
     check_who_decodes(ctx)
     check_forwarding(ctx)
     check_get_tokens(ctx)
     RK_parse(ctx)
     check_cli(ctx)
+    check_option_equivalence(ctx)
 
 
 def RK_parse(ctx):
@@ -325,3 +328,83 @@ def check_cli(ctx):
             continue
         ctx.ob('R19.6', f'cli:dest:{d}', f'{cp.mod.relpath}:{n.lineno}', f'command-line option dest `{d}` is an option validate_options reads', d in known,
                f'`{d}` is passed to format() but never validated/used: the flag has no effect or an unvalidated value reaches the filters')
+
+
+def check_option_equivalence(ctx):
+    """The command line hands validate_options the complete argparse namespace (every dest with its default) and then
+    sqlparse.format validates the result again; the library user passes only the options they want.  Both must reach
+    build_filter_stack with dictionaries that select the same filters with the same arguments.  Decided by evaluating the
+    three option functions (AST interpretation over a finite set of dictionaries, optmodel.py) on every combination of the
+    boolean flags x every valued flag one at a time."""
+    import itertools
+    from .. import optmodel as OM
+    repo = ctx.repo
+    f = repo.func('sqlparse.cli.main')
+    nval = len([n for n in own_nodes(f.node) if isinstance(n, ast.Call) and RK.resolves_to(ctx, f, n.func, 'sqlparse.formatter.validate_options')])
+    fmt = repo.func('sqlparse.format')
+    nval_fmt = len([n for n in own_nodes(fmt.node) if isinstance(n, ast.Call) and RK.resolves_to(ctx, fmt, n.func, 'sqlparse.formatter.validate_options')])
+    ctx.need(nval_fmt == 1, f'sqlparse.format calls validate_options {nval_fmt} times')
+    opts = [o for o in OM.cli_options(ctx) if o['dest'] not in ('filename', 'outfile', 'encoding', 'version') and o['action'] != 'version']
+    defaults = {o['dest']: o['default'] for o in OM.cli_options(ctx) if o['action'] != 'version'}
+    flags = [o for o in opts if o['action'] == 'store_true']
+    valued = []
+    for o in opts:
+        if o['action'] != 'store':
+            continue
+        if o['choices']:
+            valued += [(o['dest'], c) for c in o['choices']]
+        elif o['type'] == 'int':
+            valued += [(o['dest'], 1), (o['dest'], 7)]
+        elif o['type'] == 'bool':
+            valued += [(o['dest'], True)]
+        else:
+            valued += [(o['dest'], 'x')]
+    ctx.info['cli_boolean_flags'] = [o['dest'] for o in flags]
+    ctx.info['cli_valued_flags'] = sorted({d for d, _ in valued})
+
+    def vv(d, k):
+        for _ in range(k):
+            if not isinstance(d, dict):
+                return d
+            d = OM.validate(ctx, d)
+        return d
+
+    def show(p):
+        return OM.plan_names(p) if isinstance(p, dict) else p
+    n = 0
+    bad = {}
+    for r in range(len(flags) + 1):
+        for combo in itertools.combinations(flags, r):
+            for extra in [None] + valued:
+                api = {o['dest']: True for o in combo}
+                if extra is not None:
+                    api[extra[0]] = extra[1]
+                cli = dict(defaults)
+                cli.update(api)
+                va = vv(api, 1)
+                vc = vv(cli, nval + 1)
+                pa = OM.plan(ctx, va) if isinstance(va, dict) else va
+                pc = OM.plan(ctx, vc) if isinstance(vc, dict) else vc
+                n += 1
+                if pa != pc:
+                    key = tuple(sorted(api))
+                    # report the smallest witness per differing plan
+                    sig = (str(show(pa)), str(show(pc)))
+                    if sig not in bad or len(key) < len(bad[sig][0]):
+                        bad[sig] = (key, api, pa, pc)
+    ctx.info['option_dictionaries_evaluated'] = n
+    ctx.need(n >= 500, f'only {n} option dictionaries were enumerated (expected >= 500): the CLI parser model lost its flags')
+    loc = f'{f.mod.relpath}:{f.node.lineno}'
+    if not bad:
+        ctx.ob('R19.7', 'cli-vs-api:plans', loc, f'all {n} flag combinations: the CLI ({nval}+1 validations of the full namespace) and format() '
+               '(one validation of the given options) build the same filter stack', True)
+        for o in flags:
+            ctx.ob('R19.7', f'flag:{o["dest"]}', f'{f.mod.relpath}:{o["line"]}', f'flag {o["flags"][-1]} covered in every combination with the other boolean flags', True)
+        for d, v in valued:
+            ctx.ob('R19.7', f'value:{d}={v}', loc, f'valued flag {d}={v!r} covered with every combination of the boolean flags', True)
+    else:
+        for sig, (key, api, pa, pc) in sorted(bad.items(), key=lambda kv: len(kv[1][0]))[:5]:
+            ctx.ob('R19.7', f'cli-vs-api:{",".join(key) or "no flags"}', loc,
+                   f'sqlformat with {api} builds the filter stack format(text, **{api}) builds', False,
+                   f'format(): {show(pa)}; sqlformat: {show(pc)} -- validate_options is not idempotent on this dictionary, or an argparse default '
+                   'is not equivalent to leaving the option out')
